@@ -184,7 +184,8 @@ def stages(tier, rng, only=None):
     p4 = grids.partial(4)
 
     def g3(m):
-        return lambda: grid_cases(grids.datasets(3, m), lambda U: p4, ["ints", "letters", "digits", "mixed2"])
+        return lambda: grid_cases(grids.datasets(3, m), lambda U: p4, ["ints", "letters", "digits", "mixed2", "weird",
+                                                                       "neg"])
 
     if tier == "quick":
         out.append(Stage("grid3x2", "Trace_Score", run_case, g3(2), _nontrivial, _init, aux=aux))
